@@ -563,6 +563,11 @@ def judge(case, sim):
     answers = [r[2:] if r[0] != -1 else None for r in sim.neg_resps]
     conf_at = next((i for i, a in enumerate(answers[:10]) if a == [0xff, 0x05, 0x01]), None)
     confirmed = conf_at is not None
+    # the same, read off the dongle's raw answers (status byte != 0, payload ff 05 01): what the peer really confirmed
+    raw_at = next((i for i, u in enumerate(sim.neg_usb[:10]) if u and u[0] != 0 and u[1:] == [0xff, 0x05, 0x01]), None)
+    if (raw_at is not None) != confirmed:
+        fail('confirmation_misread', raw_at is not None, confirmed,
+             'the driver must see the echo ff 05 01 exactly when the dongle delivered it')
     if fin['safe'] != confirmed:
         fail('safelink_mode_without_confirmation' if fin['safe'] else 'safelink_not_used_after_confirmation',
              confirmed, fin['safe'], 'safelink must be used iff an attempt was answered by exactly ff 05 01')
